@@ -128,6 +128,10 @@ Fixpoint ops_text (ops : list op) : bytes :=
 
 
 
+(* a connection script given as the runs of reads between consecutive flush ticks *)
+Definition script_of (fss : list (list bytes)) : list op :=
+  flat_map (fun fs => map OpRead fs ++ [OpFlush]) fss.
+
 (* ---------- the documented shape of a record start line (recordtest.go) ----------
    "<" 1 to 3 decimal digits ">1 " and at least 32 bytes in all *)
 Definition start_shape (s : bytes) : Prop :=
